@@ -97,7 +97,18 @@ def work(args):
                     genomes.append(g)
                 for pi, perm in enumerate(perms(n) if full else perms(n)[row_idx % 2::2] + perms(n)[:1 - row_idx % 2]):
                     n_eval += 1
-                    inds = [Individual(genomes[k].copy(), prob, fit(pts[k]["r"], maximize)) for k in perm]
+                    if (row_idx + pi) % 3 == 2 and n >= 2:
+                        # the population as a (mu, lambda) engine built on the public Individual.clone() leaves it: every
+                        # individual is a clone of one ancestor (clones share their uuid), moved and evaluated afterwards
+                        anc = Individual(genomes[perm[0]].copy(), prob, fit(pts[perm[0]]["r"], maximize))
+                        inds = [anc]
+                        for k in perm[1:]:
+                            cl = anc.clone()
+                            cl.genome = genomes[k].copy()
+                            cl.fitness = fit(pts[k]["r"], maximize)
+                            inds.append(cl)
+                    else:
+                        inds = [Individual(genomes[k].copy(), prob, fit(pts[k]["r"], maximize)) for k in perm]
                     back = {id(ind): pts[k]["p"] for ind, k in zip(inds, perm)}
                     sig = (f"family={c['fam']} pts={[(p['p'], p['r']) for p in pts]} factor={c['fn']}/{c['fd']} trunc={c['tn']}/{c['td']} "
                            f"embed={ename} maximize={maximize} order={perm}")
